@@ -93,6 +93,12 @@ CLAIMS = {
         "The harness does not own the Go scheduler: schedule independence is supported by the race detector (which reports any pair of unsynchronised conflicting accesses that both execute, whatever the timing) plus sequential determinism. Universes avoid the recorded npm alias-cycle non-termination by construction.",
         "DESIGN.md §7 C05, §10",
     ),
+    "C06": (
+        "property-based testing (rapid) with validity predicates over the returned graph and the final install tree (verif hook); requirement satisfaction tabulated by node-semver",
+        "Generated npm universes and every root are resolved; six predicates are checked on each result: edge targets satisfy their requirements (node-semver 7.x cross-checked with 5.7.1), every surviving requirement has an edge or a node error, all nodes reachable, fresh installs pick latest / highest non-deprecated / highest, no directory of the install tree holds two entries of one name, and Node's walk-up lookup from every dependent lands on the edge's target. Holds on everything explored; not a proof.",
+        "Needs the verif hook (install tree). Trusts node-semver for satisfaction. Like npm 6 (and as the repository's alias tests pin), an entry found under the dependency's name resolves the requirement when its version satisfies the range, whatever package it is. Universes avoid the recorded npm alias-cycle non-termination by construction; universes where latest sits on a prerelease while releases exist assert clause 1 only (counted).",
+        "DESIGN.md §7 C06, §3.5",
+    ),
 }
 
 NOT_YET = "check under construction in this session (not yet claimed)"
